@@ -16,7 +16,7 @@ CONSTANTS MaxN,        \* nonces 0..MaxN
 VARIABLES act, hist
 
 FeeTable == << [cap |-> 20, tip |-> 20], [cap |-> 22, tip |-> 22], [cap |-> 22, tip |-> 2], [cap |-> 21, tip |-> 21] >>
-BalTable == << 450000, 0, 2000000 >>
+BalTable == << 850000, 450000, 0 >>
 TipTable == << 3, 21, 1 >>
 InitBal  == 1000000
 BaseFee  == 7
@@ -33,9 +33,10 @@ MCInit == /\ cfg = Cfg
           /\ head = 0
           /\ pool = InitPool(StateOf(Genesis))
           /\ cycled = TRUE
+          /\ gapped = {}
           /\ last = [op |-> "init", tx |-> 0, err |-> "ok"]
           /\ act = [op |-> "init"]
-          /\ hist = <<>>
+          /\ hist = << [act |-> [op |-> "init", cfg |-> Cfg, genesis |-> Genesis, tip |-> 1], err |-> "ok"] >>
 
 BlockTxs == UNION {Range(blocks[b].txs) : b \in DOMAIN blocks}
 KnownAt(a, n) == {t \in pool.all \cup BlockTxs : t.from = a /\ t.nonce = n}
@@ -75,8 +76,12 @@ MCNext ==
 MCStep == MCNext /\ hist' = Append(hist, [act |-> act', err |-> last'.err])
 MCSpec == MCInit /\ [][MCStep]_<<vars, act, hist>>
 
-View == <<pool, blocks, head>>
+View == <<pool, blocks, head, gapped>>
 
-Emit == IF Len(hist) = HistLen THEN PrintT(<<"MBT", ToJson(hist)>>) ELSE TRUE
-Short == Len(hist) < HistLen
+(* simulation mode: print every behaviour of HistLen operations *)
+Emit == IF Len(hist) = HistLen + 1 THEN PrintT(<<"MBT", ToJson(hist)>>) ELSE TRUE
+(* TODO-KNOWN-FINDING C41-gap-after-reorg: witnesses of the strict property failing on the   *)
+(* model (BFS, so the first printed ones are the shortest); replayed on the real pool         *)
+WitnessGap == PendingGaplessStrict \/ PrintT(<<"GAP", ToJson(hist)>>)
+NoWitnessYet == PendingGaplessStrict
 =============================================================================
